@@ -11,13 +11,16 @@ open Ivg Ivg.Num Ivg.Gen.Code
 /-- the Go struct value of a model viewBox -/
 def vbOf (v : ViewBox F32) : ivg_ViewBox := ⟨v.minX, v.minY, v.maxX, v.maxY⟩
 
+tolerant
 theorem size_code_tie (v : ViewBox F32) : ivg_ViewBox_Size (vbOf v) = v.size := rfl
 
+tolerant
 theorem aspectMeet_code_tie (v : ViewBox F32) (dx dy ax ay : F32) :
     ivg_ViewBox_AspectMeet (vbOf v) dx dy ax ay = v.aspectMeet dx dy ax ay := by
   simp only [ivg_ViewBox_AspectMeet, ViewBox.aspectMeet, size_code_tie, ViewBox.size, f32_lt_iff]
   split <;> simp [*]
 
+tolerant
 theorem aspectSlice_code_tie (v : ViewBox F32) (dx dy ax ay : F32) :
     ivg_ViewBox_AspectSlice (vbOf v) dx dy ax ay = v.aspectSlice dx dy ax ay := by
   simp only [ivg_ViewBox_AspectSlice, ViewBox.aspectSlice, size_code_tie, ViewBox.size, f32_lt_iff, f32_ofInt_one]
